@@ -18,8 +18,8 @@ PROPS = ['C%02d' % i for i in range(1, 21)]
 
 def _factory(root=None, overlay=None):
   def make():
-    repo = Repo(root=root, overlay=overlay)
-    return repo, Types(repo)
+    from .inline import load_program
+    return load_program(root=root, overlay=overlay)
   return make
 
 
@@ -73,7 +73,7 @@ def main(argv):
     if not rest:
       print('usage: python3 -m sa check <ID>')
       return 2
-    return check(rest[0].upper(), tier, root)
+    return check(rest[0].upper(), tier, root, write_evidence=(root is None))
   if cmd == 'all':
     worst = 0
     for pid in PROPS:
